@@ -29,6 +29,15 @@ CHECKS = {
  "C15": dict(level="exploration", technique="property-based testing (Hypothesis) + exhaustive single-character enumeration vs an independent recursive wildcard matcher",
    text="info WILDCARD and type NAME on generated catalogues over the whole DFS character set (regex metacharacters, mixed case, Opus volume letters, defaulted drive/dir) compared with a reference matcher written from dfs.1; all single-character name/pattern pairs enumerated.",
    note="Trusted: the reference matcher; malformed wildcards are only required to select nothing.", ref="4 C15"),
+ "C12": dict(level="exploration", technique="property-based testing (Hypothesis): hostile catalogue names, before/after file-system snapshot invariant",
+   text="Catalogues with hostile names/directories (/, .., control characters) are extracted into a sandbox with canary files; a recursive snapshot (path, type, size, hash, mode) before and after every command must show the image unchanged, no change at all for non-extract commands and only regular files directly inside the destination for extract commands.",
+   note="Trusted: the snapshot covers the whole per-case sandbox (two directory levels above the destination). Exit status is not judged.", ref="4 C12"),
+ "C13": dict(level="exploration", technique="property-based testing (Hypothesis): metamorphic relation (same catalogue, marker-imitating file bodies) + direct identification oracle",
+   text="Well-formed discs of each variant are written twice with different file bodies (random vs bodies imitating the Watford/Opus/side-2 markers); identified format, slot count, volumes, geometry and all listings must be what the markers define and identical for both.",
+   note="Trusted: generator's definition of a complete (excluded) forged Opus table; format name read from --verbose.", ref="4 C13"),
+ "C17": dict(level="exploration", technique="property-based testing (Hypothesis): boundary-value generation around volume/surface/slot ends with a prefix-of-in-bounds-bytes oracle (ASan build)",
+   text="A probe entry ends -2..+2 (and further) sectors around every Opus volume end, surface end, interleaved side end and MMB slot end; anything printed or extracted must be a prefix of the in-bounds bytes, inside extents must read exactly, crossing extents must fail with a diagnostic.",
+   note="Trusted: neighbouring regions hold different random data so foreign bytes cannot coincide.", ref="4 C17"),
 }
 
 def main():
